@@ -419,6 +419,16 @@ func runC09(c C09Case) *Result {
 			special = special || sawDelBlock
 			if fr.pre {
 				res.count("undos-reaching-behind-the-roots-snapshot", 1)
+				// the leaves such an undo brings back were never shown to this forest before; the pinned
+				// implementation remembers them (the undo record carries their proof), and the script was
+				// generated on that reading. A forest that does not is not wrong by any statement: the rest of
+				// such a case is not judged
+				for _, s := range fr.b.Del {
+					if _, ok := in.M.CachedLeaves.Get(f.Hashes[s]); !ok {
+						res.class("undo-behind-snapshot:restored-leaves-not-remembered(rest of the case not judged)")
+						return res
+					}
+				}
 			}
 			if err := check(fmt.Sprintf("step %d after Undo of block {del %v, add %d}", i, fr.b.Del, fr.b.Add)); err != nil {
 				return res.failf("%v", err)
